@@ -51,6 +51,13 @@ class DType(object):
         from .absint import NumType
         if isinstance(o, NumType):
             return o.__eq__(self)
+        nm = getattr(o, '__name__', None)
+        if not isinstance(o, DType) and isinstance(nm, str):
+            # dtype == np.bool_ / float / np.float64 .. : numpy converts the right hand side to a dtype first
+            kind = {'bool': 'b', 'bool_': 'b', 'float': 'f', 'float64': 'f', 'float_': 'f', 'double': 'f', 'complex': 'c',
+                    'complex128': 'c', 'complex_': 'c', 'int': 'i', 'int64': 'i', 'int_': 'i', 'intp': 'i', 'object': 'O'}.get(nm)
+            if kind is not None:
+                return kind == self.kind
         return isinstance(o, DType) and o.kind == self.kind or (o is float and self.kind == 'f') or \
             (o is complex and self.kind == 'c') or (o is int and self.kind == 'i')
 
@@ -504,6 +511,7 @@ class Models(object):
             if fn is None:
                 fn = self._unmodelled('np.' + name)
             setattr(np, name, self._hooked('np.' + name, fn))
+        np.broadcast = self._hooked('np.broadcast', self.np_broadcast)
         np.ogrid = _OGrid()
         np.r_ = _RClass()
         np.newaxis = None
@@ -1472,6 +1480,11 @@ class Models(object):
 
     def np_isscalar(self, x):
         return isinstance(x, (int, Fr, Poly, Rat, str))
+
+    def np_broadcast(self, *arrs):
+        """np.broadcast(a, b, ...): only the shape attributes of the broadcast object are modelled (not its iteration)."""
+        shape = broadcast_shapes(*[self.np_asarray(a).shape for a in arrs])
+        return Namespace('broadcast', shape=shape, size=_prod(shape), nd=len(shape), ndim=len(shape), numiter=len(arrs))
 
     def np_broadcast_arrays(self, *arrs):
         arrs = [self.np_asarray(a) for a in arrs]
